@@ -1082,9 +1082,11 @@ func runCheck(prop, tier string, seed uint64, workers, budgetOverride int, keep,
 			continue
 		}
 		seenFinal[mv.Class+"|"+strings.Join(dims, ",")+"|"+firstLine(mv.Detail)] = true
-		if c.prop == "C12" && !hasDim(dims, "concurrency") {
+		if c.prop == "C12" && !hasDim(dims, "concurrency") && !strings.HasPrefix(mv.Class, "race:") {
 			// reproduces with a single caller thread: not interference between
-			// concurrent calls (it is C10's or C11's matter, reported there)
+			// concurrent calls (it is C10's or C11's matter, reported there).
+			// A data race is reported all the same: two goroutines the library starts
+			// within one call race in every execution with concurrent callers as well.
 			c.count("dropped_needs_no_concurrency", 1)
 			logf("%s: class %s needs no concurrency after minimisation — not a C12 matter, dropped", prop, head(cl, 90))
 			continue
